@@ -64,6 +64,13 @@ func main() {
 	}
 }
 
+func coverCount(e *FnEnc) int {
+	if e.coverAsserts > 0 && e.coverAsserts <= len(e.asserts) {
+		return e.coverAsserts
+	}
+	return len(e.asserts)
+}
+
 func hasProp(ps []string, p string) bool {
 	for _, x := range ps {
 		if x == p {
@@ -255,7 +262,13 @@ func cmdCheck(args []string) int {
 		obls = append(obls, e.obls...)
 		// vacuity guard: the exit is reachable under requires + all assumptions
 		if len(e.rets) > 0 {
-			covers = append(covers, &Obligation{Name: e.key + "#cover[exit reachable]", Kind: "cover", Fn: e.key, nAsserts: len(e.asserts), Guard: "bb_exit", Cover: true, enc: e})
+			covers = append(covers, &Obligation{Name: e.key + "#cover[exit reachable]", Kind: "cover", Fn: e.key, nAsserts: coverCount(e), Guard: "bb_exit", Cover: true, enc: e})
+			if coverCount(e) != len(e.asserts) {
+				// a second cover with the postconditions assumed: only meaningful (and only counted) when every
+				// obligation of the function was discharged - then they are consequences, and an unreachable exit
+				// means the assumptions or the background axioms are inconsistent
+				covers = append(covers, &Obligation{Name: e.key + "#cover[exit reachable, postconditions assumed]", Kind: "cover", Fn: e.key, nAsserts: len(e.asserts), Guard: "bb_exit", Cover: true, enc: e})
+			}
 		}
 	}
 	for _, l := range lemmas {
@@ -459,11 +472,21 @@ func cmdCheck(args []string) int {
 		}
 	}
 	coverSat, coverUndecided := 0, 0
+	undischarged := map[string]bool{}
+	for _, o := range obls {
+		if o.Status != "proved" {
+			undischarged[o.Fn] = true
+		}
+	}
 	for _, o := range covers {
 		switch o.Status {
 		case "proved":
 			coverSat++
 		case "failed":
+			if strings.Contains(o.Name, "postconditions assumed") && undischarged[o.Fn] {
+				coverUndecided++ // a failed postcondition of this function is already reported; assuming it proves nothing
+				continue
+			}
 			vacuous++
 			fmt.Fprintf(os.Stderr, "VACUITY: %s: %s\n", o.Name, o.Output)
 		default:
